@@ -273,7 +273,7 @@ def case_roundtrip(rep):
         p = M.parse(lines)
         pm = M.parsed_matrix(p)
         okp = (p["name"] == name and p["dimension"] == len(m) and pm == m
-               and p["type"] == ("TSP" if sym else "ATSP")
+               and (p["type"] == "ATSP" or (p["type"] == "TSP" and sym))
                and p["comments"] == [c.strip() for c in comments])
         why = f"parsed name={p['name']!r} type={p['type']} " \
               f"n={p['dimension']} format={p['ewf']} matrix={pm}"
